@@ -8,10 +8,12 @@ import (
 	"encoding/json"
 	"flag"
 	"fmt"
+	"io"
 	"os"
 	"os/exec"
 	"path/filepath"
 	"runtime"
+	"runtime/pprof"
 	"sort"
 	"strconv"
 	"strings"
@@ -161,6 +163,11 @@ func scenarios(h *Harness) []Scenario {
 // ---------- worker ----------
 
 func workerMain(h *Harness) {
+	if pf := os.Getenv("VERIF_CPUPROF"); pf != "" {
+		f, _ := os.Create(pf)
+		pprof.StartCPUProfile(f)
+		defer pprof.StopCPUProfile()
+	}
 	var lim syscall.Rlimit
 	lim.Cur, lim.Max = 12<<30, 12<<30
 	syscall.Setrlimit(syscall.RLIMIT_AS, &lim)
@@ -289,6 +296,7 @@ func workerMain(h *Harness) {
 
 type wproc struct {
 	cmd  *exec.Cmd
+	wc   io.Closer
 	in   *bufio.Writer
 	out  *bufio.Reader
 	busy bool
@@ -301,7 +309,7 @@ func startWorker() *wproc {
 		args = append(args, "-only", *flagOnly)
 	}
 	cmd := exec.Command(os.Args[0], args...)
-	cmd.Env = append(os.Environ(), "GOMAXPROCS=2")
+	cmd.Env = append(os.Environ(), "GOMAXPROCS=1")
 	cmd.Stderr = os.Stderr
 	stdin, _ := cmd.StdinPipe()
 	stdout, _ := cmd.StdoutPipe()
@@ -309,7 +317,7 @@ func startWorker() *wproc {
 		fmt.Fprintf(os.Stderr, "ENGINE-ERROR: cannot start worker: %v\n", err)
 		os.Exit(2)
 	}
-	return &wproc{cmd: cmd, in: bufio.NewWriter(stdin), out: bufio.NewReaderSize(stdout, 1<<20)}
+	return &wproc{cmd: cmd, wc: stdin, in: bufio.NewWriter(stdin), out: bufio.NewReaderSize(stdout, 1<<20)}
 }
 
 type result struct {
@@ -466,8 +474,7 @@ func coordinatorMain(h *Harness) {
 		}
 		r.w.n += r.rep.Execs
 		if r.w.n > 30000 { // recycle
-			r.w.in.Flush()
-			r.w.cmd.Process.Kill()
+			r.w.wc.Close()
 			r.w.cmd.Wait()
 			nw2 := startWorker()
 			for i := range workers {
@@ -492,7 +499,7 @@ func coordinatorMain(h *Harness) {
 		}
 	}
 	for _, w := range workers {
-		w.cmd.Process.Kill()
+		w.wc.Close()
 		w.cmd.Wait()
 	}
 	pendingPrefixes := 0
